@@ -608,6 +608,9 @@ class AttrSpec:
         self.__value = 0 | _HIGH_88_COLOR * (colors == 88) | _HIGH_TRUE_COLOR * (colors == 2**24)
         self.__set_foreground(fg)
         self.__set_background(bg)
+        if not self.__value & (_FG_TRUE_COLOR | _BG_TRUE_COLOR):
+            # depth marker is only needed for parsing: no true color used -> same value as for lower depth
+            self.__value &= ~_HIGH_TRUE_COLOR
         if self.colors > colors:
             raise AttrSpecError(
                 f"foreground/background ({fg!r}/{bg!r}) require more colors than have been specified ({colors:d})."
